@@ -28,7 +28,8 @@ func lookupFlow[T any](urlTree *URLTree[T], url string) lookupFlowNodeResult[T] 
 	var part urlPart
 	for index, part = range splitURL {
 		log.Trace().Msgf("lookupFlowNodeResult::Looking up part %v", part)
-		if currentNode.WildcardChild != nil && currentNode.WildcardChild.hasValue() {
+		if currentNode.WildcardChild != nil && currentNode.WildcardChild.hasValue() &&
+			wildcardCovers(urlTree, currentNode, part) {
 			flows = append(flows, *currentNode.WildcardChild.Value)
 		}
 
@@ -54,7 +55,7 @@ func lookupFlow[T any](urlTree *URLTree[T], url string) lookupFlowNodeResult[T] 
 	// last part (no child for it) the node reached belongs to a URL that is one segment shorter
 	if walkedParts == len(splitURL) && currentNode.hasValue() {
 		flows = append(flows, *currentNode.Value)
-	} else if index == lookUpLength && part.IsPartOfHost &&
+	} else if walkedParts == len(splitURL) && index == lookUpLength && part.IsPartOfHost &&
 		currentNode.WildcardChild != nil && currentNode.WildcardChild.hasValue() {
 		// case where url is host without path and filter ends with a wildcard, for example:
 		// url: "host.com", filter: "host.com/*"
